@@ -114,6 +114,14 @@ def shortcuts_before_dispatch(fn):
             ast.unparse(st.test) or "type(" in ast.unparse(st.test) or any(
             guard_says_not_lazy(st.test, p_, i) is True
             for i, p_ in enumerate(params))
+        # a kind test names a kind: `type(lhs) is type(rhs)` compares two
+        # unknown kinds and establishes a scalar for neither
+        kind_names = names - set(params) - {"type", "isinstance", "vy_type",
+                                             "len", "all", "any", "ctx"}
+        if kinded and not kind_names and not any(
+                guard_says_not_lazy(st.test, p_, i) is True
+                for i, p_ in enumerate(params)):
+            kinded = False
         if kinded or "ts" in names:
             continue
         out.append((st, f"if {ast.unparse(st.test)[:40]}: return"))
